@@ -293,6 +293,13 @@ def finish(prop, tier, seed, t0, gate, coverage, violations, known_hits, level="
     lines = []
     for k in known_hits:
         lines.append(f"KNOWN-FINDING: property={prop} {k}")
+    if os.environ.get("VERIF_DUMP_VIOLATIONS"):
+        try:
+            pathlib.Path(os.environ["VERIF_DUMP_VIOLATIONS"]).mkdir(parents=True, exist_ok=True)
+            (pathlib.Path(os.environ["VERIF_DUMP_VIOLATIONS"]) / f"{prop}.violations.json").write_text(
+                json.dumps(violations, indent=1, default=str))
+        except OSError:
+            pass
     for i, v in enumerate(violations[:5]):
         rp = REPLAYS / f"{prop}-{hashlib.sha256(json.dumps(v, sort_keys=True, default=str).encode()).hexdigest()[:10]}.json"
         rp.write_text(json.dumps(v, indent=1, default=str))
